@@ -110,6 +110,8 @@ pub fn run(id: &str, tier: Tier) -> i32 {
         ),
         "C19" => crate::c19::run(tier),
         "C15" => crate::c15::run(tier),
+        "C16" => crate::e2::run_c16(tier),
+        "C05" => crate::e2::run_c05(tier),
         "C11" => crate::c11::run(tier),
         "C12" => crate::c12::run(tier),
         "C06" => crate::c06::run(tier),
